@@ -354,3 +354,69 @@ def thm_skip():
 for _t in REG.theorems:
     if _t.prop == P:
         _t.no_concrete_replay = True
+
+
+# ------------------------------------------------------------------ bounded: a bundle is named by the time span of what it holds
+@bounded(P, "bundle-named-by-its-span", "the REAL _save_and_return / concat_collocations on real compact collocation datasets (1..4 per bundle, "
+         "primary times of the members NOT in chronological order, members overlapping in time): the (start, end) handed to the output "
+         "fileset's get_filename, and the start_time / end_time attributes of the merged dataset, must be the earliest / latest primary "
+         "time the bundle holds; 40 (quick) / 300 (thorough) bundles")
+def bounded_bundle_names(rng, tier):
+    import warnings
+    import numpy as np
+    import pandas as pd
+    from contracts.C13 import _compact
+    rounds = 40 if tier == "quick" else 300
+    evals, failures, samples, distinct = 0, [], [], set()
+
+    class Recorder:
+        def __init__(self):
+            self.names, self.written = [], []
+
+        def get_filename(self, times, fill=None):
+            self.names.append(tuple(times))
+            return "/out/%d.nc" % len(self.names)
+
+        def write(self, data, filename):
+            self.written.append((filename, data))
+    real_sar = Collocator.__dict__["_save_and_return"]
+    for r in range(rounds):
+        nprng = np.random.RandomState(rng.randint(0, 2**31 - 1))
+        k = rng.randint(1, 4)
+        members = []
+        for q in range(k):
+            ds = _compact(nprng, rng, rng.randint(1, 6), rng.randint(1, 6), rng.randint(1, 12))
+            shift = np.timedelta64(rng.randint(-3000, 3000), "s")             # members are NOT ordered in time
+            ds["A/time"] = ds["A/time"] + shift
+            ds["B/time"] = ds["B/time"] + shift
+            ta = ds["A/time"].values
+            ds.attrs = {"start_time": str(pd.Timestamp(ta.min())), "end_time": str(pd.Timestamp(ta.max()))}
+            members.append(ds)
+        evals += 1
+        distinct.add((r, k))
+        rec = Recorder()
+        self = object.__new__(Collocator)
+        self.name = "w"
+        try:
+            with warnings.catch_warnings():
+                warnings.simplefilter("ignore")
+                real_sar(self, [m.copy(deep=True) for m in members], {"primary.n": 1}, rec, None, None)
+        except Exception as exc:
+            failures.append({"round": r, "members": k, "problem": "exception %r" % (exc,)})
+            continue
+        all_t = np.concatenate([m["A/time"].values for m in members])
+        want = (pd.Timestamp(all_t.min()).to_pydatetime(), pd.Timestamp(all_t.max()).to_pydatetime())
+        merged = rec.written[0][1] if rec.written else None
+        problems = []
+        if len(rec.names) != 1 or tuple(pd.Timestamp(t).to_pydatetime() for t in rec.names[0]) != want:
+            problems.append("file named for %s but the bundle spans %s" % ([str(t) for t in (rec.names[0] if rec.names else ())], [str(t) for t in want]))
+        if merged is not None and (pd.Timestamp(merged.attrs["start_time"]).to_pydatetime(), pd.Timestamp(merged.attrs["end_time"]).to_pydatetime()) != want:
+            problems.append("start_time / end_time attributes %s %s differ from the span of the merged primary times"
+                            % (merged.attrs["start_time"], merged.attrs["end_time"]))
+        if merged is not None and merged["Collocations/pairs"].shape[1] != sum(m["Collocations/pairs"].shape[1] for m in members):
+            problems.append("the written bundle does not hold all pairs of its members")
+        if problems:
+            failures.append({"round": r, "members": k, "problem": "; ".join(problems)})
+        elif len(samples) < 3:
+            samples.append({"round": r, "members": k, "span": [str(t) for t in want]})
+    return {"evaluations": evals, "distinct_nontrivial": len(distinct), "failures": failures[:5], "samples": samples}
